@@ -552,6 +552,18 @@ def run(ctx, R):
     r84(ctx, R)
     from psa.rules import c01
     c01.r12(ctx, R, 'R8.4')
+    # an allocation for a (provider, class) without an inventory row is
+    # refused by the capacity check (the obligations of R1.3 that say so)
+    n13 = C.reuse_obligations(
+        ctx, R, c01.r13, 'R8.4',
+        select=lambda o: 'missing-inventory' in o.construct
+        or 'guard-on-every-iteration' in o.construct)
+    if n13 < 2:
+        R.ob('R8.4', 'capacity-check:missing-inventory-refused', False,
+             'the capacity check can be shown to refuse an allocation '
+             'without an inventory row', 'the check no longer has the '
+             'shape R1.3 decides (%d of its obligations found)' % n13)
+    R.count('R8.4b', max(n13, 2), 2)
     r85(ctx, R)
     from psa import sqlshape
     n = sqlshape.shape_rule(ctx, R, 'R8.6', [
